@@ -348,6 +348,49 @@ func c04HookFailure(c *Ctx) {
 		}
 	}
 	c.Floor("C04.E1-hook-failure", 4)
+	// the hook-signalled failure belongs to one sync: whatever state of a running sync lives in the handler (shared by
+	// all syncs of the publisher) is written only after the per-publisher lock is taken — (re)initialised before it, a
+	// second sync queued behind a running one wipes that one's failure, and the failed sync returns success
+	{
+		var lock ssa.Instruction
+		for _, st := range c.CallsInl(h, Call("sync.Mutex).Lock", Field("syncMutex", Any())), 2) {
+			if o := st.Outer(); o.Parent() == h {
+				lock = o
+			}
+		}
+		early := token.NoPos
+		nSt := 0
+		instrs(h, func(in ssa.Instruction) {
+			st, ok := in.(*ssa.Store)
+			if !ok {
+				return
+			}
+			a := c.E(st.Addr)
+			root := a
+			for d := 0; d < 4 && root != nil && root.Op == "field" && len(root.Args) == 1; d++ {
+				if fieldOwner(root) == "handler" {
+					break
+				}
+				root = root.Args[0]
+			}
+			if root == nil || root.Op != "field" || fieldOwner(root) != "handler" {
+				return
+			}
+			if base := strip(root.Args[0]); base == nil || base.Op != "param" {
+				return
+			}
+			nSt++
+			if lock == nil || !Precedes(lock, st) {
+				early = st.Pos()
+			}
+		})
+		if nSt == 0 {
+			c.OK("C04.E1-per-sync-state", c.short(h.String())+" › per-sync state", h.Pos(), "the per-publisher routine keeps the state of a running sync in locals (nothing of it is stored in the handler)")
+		} else {
+			c.Check(!early.IsValid(), "C04.E1-per-sync-state", c.short(h.String())+" › per-sync state written under the lock", h.Pos(), "state of the running sync kept in the handler is written only after the per-publisher lock is taken", "state of the running sync is stored in the handler at "+c.pos(early)+" before the per-publisher lock is taken: a sync queued behind a running one resets it (a failure the hook signalled is lost and the failed sync returns success)")
+		}
+		c.Floor("C04.E1-per-sync-state", 1)
+	}
 }
 
 func c04KeptClient(c *Ctx) {
